@@ -65,6 +65,11 @@ var corpus = []string{
 }
 
 var danglingCorpus = []string{
+	// an absent id shared by a selected and an unselected object: needed for ever, never stored
+	"n1:1,1:1=1 r5:n1,r900:1=1 r6:r900:-",
+	"r6:r900:- r5:n1,r900:1=1 n1:1,1:1=1",
+	"n1:1,1:1=1 w5:1,900:1=1 w6:900:- r7:w901,n1:1=1 r8:w901:-",
+	"r8:n900:- r7:n1,n900:- w6:900,901:- n1:1,1:1=1",
 	"n1:1,1:- w1:1,9:1=1",
 	"w1:1,9:1=1 n1:1,1:-",
 	"r1:w7,n1:1=1 n1:5,5:-",
@@ -261,10 +266,26 @@ func (g docGen) doc(n int, dangling bool) []obj {
 		for j := 0; j < nd; j++ {
 			if len(rels) > 0 && r.Bool() {
 				o := &rels[r.Intn(len(rels))]
-				o.refs = append(o.refs, ref{"nwr"[r.Intn(3)], int64(900 + r.Intn(5))})
+				d := ref{"nwr"[r.Intn(3)], int64(900 + r.Intn(5))}
+				o.refs = append(o.refs, d)
+				// the SAME absent id referenced by several objects: it is registered as needed by the first one that is
+				// stored and stays "needed, never stored" for the rest of the extraction
+				for k := r.Intn(3); k > 0; k-- {
+					o2 := &rels[r.Intn(len(rels))]
+					if r.Bool() {
+						o2.refs = append(o2.refs, d)
+					} else {
+						o2.refs = append([]ref{d}, o2.refs...)
+					}
+				}
 			} else {
 				o := &ways[r.Intn(len(ways))]
-				o.refs = append(o.refs, ref{'n', int64(900 + r.Intn(5))})
+				d := ref{'n', int64(900 + r.Intn(5))}
+				o.refs = append(o.refs, d)
+				for k := r.Intn(3); k > 0; k-- {
+					o2 := &ways[r.Intn(len(ways))]
+					o2.refs = append([]ref{d}, o2.refs...)
+				}
 			}
 		}
 	}
